@@ -41,7 +41,7 @@ type Isqrt struct {
 // Call the function with the arguments provided.
 func (f *Isqrt) Call(s *slip.Scope, args slip.List, depth int) (result slip.Object) {
 	slip.CheckArgCount(s, depth, f, args, 1, 1)
-	switch ta := args[0].(type) {
+	switch ta := canonicalNumber(args[0]).(type) {
 	case slip.Fixnum:
 		// A float64 can not represent all fixnums so math.Sqrt is off by one
 		// just below some perfect squares.
